@@ -139,6 +139,13 @@ type Link struct {
 	sockSplits int64
 }
 
+// Generation counts the sessions the supervisor has created on this link so far (a stable link keeps its number).
+func (l *Link) Generation() int {
+	l.mu.Lock()
+	defer l.mu.Unlock()
+	return l.gen
+}
+
 // StreamSplits reports how many reads of the current framed stream ended inside buffered data (both directions).
 func (l *Link) StreamSplits() int64 {
 	l.mu.Lock()
